@@ -300,7 +300,24 @@ def _parse_stmt(p):
         where = _parse_or(p) if p.kw("WHERE") else None
         p.end()
         return ("select", tname, cols, where)
+    if p.kw("PRAGMA"):
+        name = p.ident().lower()
+        val = None
+        if p.op("=") or p.op("("):
+            k, v = p.peek()
+            if k not in ("id", "num", "str"):
+                raise OperationalError("symsql: PRAGMA value near %r" % (p.peek(),))
+            p.i += 1
+            val = v
+            p.op(")")
+        p.end()
+        return ("pragma", name, val)
     raise OperationalError("symsql: unsupported statement near %r" % (p.peek(),))
+
+
+# the pragmas that decide what a process death leaves behind (everything else sqlite accepts is accepted and ignored here)
+JOURNAL_MODES = ("delete", "truncate", "persist", "memory", "wal", "off")
+SYNCHRONOUS = {"off": 0, "normal": 1, "full": 2, "extra": 3, 0: 0, 1: 1, 2: 2, 3: 3}
 
 
 # ---- evaluation --------------------------------------------------------------------------------------------------------------------
@@ -420,6 +437,7 @@ class Connection(object):
         self._closed = False
         self.boundary = None            # optional callable(what) invoked before every statement / commit (crash injection)
         self.in_transaction = False
+        self.pragmas = {"journal_mode": "wal" if getattr(self.disk, "wal", False) else "delete", "synchronous": 2}      # WAL is a property of the file
 
     # -- transaction plumbing
     def _tables(self, write):
@@ -520,6 +538,25 @@ class Cursor(object):
                 t.uniques.append((iname, cols))
             else:
                 t.plain_indexes = getattr(t, "plain_indexes", ()) + (iname,)
+            return self
+        if kind == "pragma":
+            _, name, val = st
+            if name == "journal_mode":
+                if val is not None:
+                    v = str(val).lower()
+                    if v in JOURNAL_MODES and not conn.in_transaction:          # sqlite: the mode cannot change inside a transaction
+                        conn.pragmas["journal_mode"] = v
+                        conn.disk.wal = v == "wal"
+                self._rows = [(self._out(conn.pragmas["journal_mode"]),)]
+            elif name == "synchronous":
+                if val is not None:
+                    v = val.lower() if isinstance(val, str) else val
+                    if v in SYNCHRONOUS:
+                        conn.pragmas["synchronous"] = SYNCHRONOUS[v]
+                else:
+                    self._rows = [(conn.pragmas["synchronous"],)]
+            elif val is not None:
+                conn.pragmas[name] = val
             return self
         tname = st[1]
         write = kind in ("insert", "update", "delete")
